@@ -19,6 +19,11 @@
     `_parse_method_end` sets exactly the flags that are written (a flag is on iff it was on
     before or its keyword occurs), touches nothing else of the method, and leaves the stream
     right after the declaration part it owns — for every stream state and parser state.
+  * `C03_access_specifier` (`Theorems/AccessForm.lean`): in a class body `public:` /
+    `protected:` / `private:` sets the access of the innermost open class — of that stack
+    entry only — to the written keyword (the `.access` operation of the machine in
+    `C03_stack_refines`), consumes the colon and delivers nothing; `C03_access_outside_class`:
+    anywhere else it is a parse error at the keyword.
   Member kinds, constructors / destructors, `noexcept` / `throw` / trailing return in the
   qualifier sequence, base-class flags: by the correspondence of the full parser model and
   the member-grammar oracle (named in the evidence; not proof).
@@ -26,6 +31,7 @@
 import CxxModel.Blocks
 import CxxModel.Theorems.Events
 import CxxModel.Theorems.MethodEnd
+import CxxModel.Theorems.AccessForm
 import CxxModel.Parser.Decl
 namespace Cxx
 
@@ -97,5 +103,18 @@ theorem C03_qualifier_flags (vs : List String) (m m' : Function) (h : applyQuals
 /-! non-vacuity: `const volatile && override final` is a qualifier sequence -/
 example (m : Function) : (applyQuals m ["const", "volatile", "&&", "override", "final"]).isSome = true := by
   simp [applyQuals, qualStep]
+
+theorem C03_access_specifier (env : Env) (tok : CTok) (colon : Tok) (w : World) (b1 : Buf) (blk : Block) (rest : List Block)
+    (hstack : w.stack = blk :: rest) (hk : blk.view.kind = .cls) (hc : colon.type = ":")
+    (htok : tokenEofOk env.cfg w.buf = .ok (some colon, b1)) :
+    ∃ w', interp env (P.processAccessSpecifier tok) w = (w', .ok ()) ∧ w'.buf = b1 ∧
+      w'.stack = { blk with access := some tok.value } :: rest ∧
+      w'.events = w.events ∧ w'.delivered = w.delivered ∧ w'.anon = w.anon ∧ w'.muted = w.muted :=
+  access_specifier_form env tok colon w b1 blk rest hstack hk hc htok
+
+theorem C03_access_outside_class (env : Env) (tok : CTok) (w : World) (blk : Block) (rest : List Block)
+    (hstack : w.stack = blk :: rest) (hk : blk.view.kind ≠ .cls) :
+    interp env (P.processAccessSpecifier tok) w = (w, .error (.parse ("unexpected '" ++ tok.value ++ "'") (some tok))) :=
+  access_outside_class env tok w blk rest hstack hk
 
 end Cxx
